@@ -22,6 +22,15 @@ WPAIRS = [("NB   ", "NBA  "), ("N    ", "NB   "), ("NB   ", "NB\0\0 "), ("NBA  "
           ("\xa4\xdf   ", "\xa4\xdf\xb1\x6f ")]
 
 
+# field-width boundaries of board names (BoardID_t holds IDLEN = 12 characters + NUL): lengths 1, 2, 11 and 12, names sharing their
+# first 11 characters (with each other and with the 11-character name that is their prefix), no case twins; classes of the full 4 columns
+N11 = "abcdefghijk"
+WIDE = ["", "a", "ab", N11, N11 + "l", N11 + "M", "Zbcdefghijkl"]
+WIDE_CLASSES = ["AAAA ", "BBBB ", "\xa4\xdf\xb1\x6f "]
+WIDE_PROBES = [N11[:10], N11 + "k", N11 + "z", N11 + "la", "zbcdefghijk", "ZBCDEFGHIJKL", "A"]   # 10, 12 (absent), 13 bytes, other letter case
+WIDE_PREFIXES = ["a", "ab", N11[:10], N11, N11 + "l", N11 + "m", N11.upper() + "L", N11 + "k", "z", "Zbcdefghijkl", N11 + "la", ""]
+
+
 def low(s):
     return bytes(c + 32 if 65 <= c <= 90 else c for c in s.encode("latin-1"))
 
@@ -49,6 +58,323 @@ def titles_wire(titles):
 
 def board_class(t5):
     return t5[:4] if t5[4] == " " else t5[:5]
+
+
+# ---------------------------------------------------------------------------------------------------------------- histories
+# first-time / error paths of (re)loading the board cache, then creations, then ALL lookups (driver op 8, go/impl/cmd/implrun/c11hist.go;
+# model: reload / install / create / new_board in coq/Model/C11.v; theorem C11_lookups_after_any_history). The reference below is a
+# scan of the board table as the operations should have left it, written here: every number the driver prints is predicted.
+H_NAMES = ["sysop13", "Ab", "abcdefghijk", "abcdefghijkl", "abcdefghijkM", "Zz-_.9", "k0", "Qq1"]      # twin-free; 2, 11, 12 characters
+H_CLASSES = ["AAAA", "NB\0\0", "\xa4\xdf\xb1\x6f", "BBBB"]                                                 # as mNewbrd writes them: Title[:4], then a blank
+
+
+def h_nt(name, t5):
+    return " ".join(str(x) for x in name.encode("latin-1").ljust(13, b"\0") + t5.encode("latin-1"))
+
+
+class HRef:
+    """the board file and the board table as the history should leave them"""
+
+    def __init__(self):
+        self.file = None      # None = no .BRD; else the list of its complete records (name, Title[:5])
+        self.tbl = []
+
+    def orders(self):
+        n = len(self.tbl)
+        bn = sorted(range(n), key=lambda i: low(self.tbl[i][0]))
+        bc = sorted(range(n), key=lambda i: (self.tbl[i][1][:4].split("\0")[0].encode("latin-1"), low(self.tbl[i][0])))
+        return bn, bc
+
+    def status(self, err=0):
+        return [err, 0, 0, len(self.tbl), -1 if self.file is None else len(self.file)]
+
+    def step(self, st):
+        """expected record of one step (list of ints); st = (kind, ...)"""
+        kind = st[0]
+        if kind == "install":
+            self.file = list(st[1]); self.tbl = list(st[1])[:100]
+            return self.status()
+        if kind == "reload":
+            if self.file is not None:
+                self.tbl = list(self.file)[:100]
+            return self.status()
+        if kind == "create":
+            self.file = (self.file or []) + [st[1]]; self.tbl = self.tbl + [st[1]]
+            return self.status()
+        if kind == "newboard":
+            name, cls = st[1], st[2]
+            e = (name, cls + " ")
+            if any(casecmp(nm, name) == 0 for nm, _ in self.tbl):
+                return self.status(4)
+            vac = [i for i, (nm, _) in enumerate(self.tbl) if nm == ""]
+            if vac:
+                self.file[vac[0]] = e; self.tbl[vac[0]] = e
+            else:
+                self.file = (self.file or []) + [e]; self.tbl = self.tbl + [e]
+            return self.status()
+        bn, bc = self.orders()
+        sn = [self.tbl[i][0] for i in bn]
+        cn = [self.tbl[i][0] for i in bc]
+        ct = [self.tbl[i][1] for i in bc]
+        n = len(self.tbl)
+
+        def first(pred, seq):
+            return next((i + 1 for i, x in enumerate(seq) if pred(x)), -1)
+
+        def last(pred, seq):
+            return next((i + 1 for i in range(len(seq) - 1, -1, -1) if pred(seq[i])), -1)
+
+        if kind == "name":
+            q = st[1]
+            bid = first(lambda e: casecmp(e[0], q) == 0, self.tbl)
+            out = [max(bid, 0)]
+            for asc in (1, 0):
+                ex = first(lambda nm: casecmp(nm, q) == 0, sn)
+                out.append(ex if ex > 0 else (first(lambda nm: casecmp(nm, q) >= 0, sn) if asc else last(lambda nm: casecmp(nm, q) <= 0, sn)))
+            for asc in (1, 0):
+                has = lambda nm: low(nm).startswith(low(q))
+                out.append(-1 if len(q) > 12 else (first(has, sn) if asc else last(has, sn)))
+            return self.status() + out
+        if kind == "class":
+            cl, q = st[1], st[2]
+
+            def kcmp(i):
+                a = ccmp(board_class(ct[i]).split("\0")[0].encode("latin-1"), cl.encode("latin-1"))
+                return a if a != 0 else casecmp(cn[i], q)
+            out = []
+            for asc in (1, 0):
+                ex = first(lambda i: kcmp(i) == 0, range(n))
+                out.append(ex if ex > 0 else (first(lambda i: kcmp(i) >= 0, range(n)) if asc else last(lambda i: kcmp(i) <= 0, range(n))))
+            return self.status() + out
+        if kind in ("walk", "acwalk"):
+            k, asc = st[1], st[2]
+            order = cn if (kind == "walk" and st[3]) else sn
+            vis = [i + 1 for i, nm in enumerate(order) if nm and (kind == "walk" or low(nm).startswith(low(st[3])))]
+            if not asc:
+                vis = vis[::-1]
+            return self.status() + [max(1, -(-len(vis) // k))] + vis
+        if kind == "dump":
+            out = bn + bc
+            for nm, t5 in self.tbl:
+                out += list(nm.encode("latin-1").ljust(13, b"\0") + t5.encode("latin-1"))
+            return self.status() + out
+        raise ValueError(kind)
+
+
+def h_wire(st):
+    kind = st[0]
+    if kind == "install":
+        return "1 %d %d %s" % (st[2], len(st[1]), " ".join(h_nt(nm, t5) for nm, t5 in st[1]))
+    if kind == "reload":
+        return "2"
+    if kind == "create":
+        return "3 " + h_nt(*st[1])
+    if kind == "newboard":
+        return "4 %s %s" % (" ".join(str(x) for x in st[1].encode("latin-1").ljust(13, b"\0")), toks(st[2]))
+    if kind == "name":
+        return "5 " + toks(st[1])
+    if kind == "class":
+        return "6 %d %s %s" % (len(st[1]), toks(st[1]), toks(st[2]))
+    if kind == "walk":
+        return "7 %d %d %d" % (st[1], st[2], st[3])
+    if kind == "acwalk":
+        return "8 %d %d %s" % (st[1], st[2], toks(st[3]))
+    return "9"
+
+
+H_WHAT = {"install": "ReloadBCache of a .BRD of %d complete records + %d further bytes", "reload": "ReloadBCache", "create": "AppendRecord + AddbrdTouchCache of %r",
+          "newboard": "bbs.CreateBoard(%r, class %r)"}
+
+
+def h_describe(st):
+    k = st[0]
+    if k == "install":
+        return H_WHAT[k] % (len(st[1]), st[2])
+    if k == "reload":
+        return H_WHAT[k]
+    if k == "create":
+        return H_WHAT[k] % (st[1],)
+    if k == "newboard":
+        return H_WHAT[k] % (st[1], st[2])
+    return "%s%r" % (k, tuple(st[1:]))
+
+
+def h_observe(ref_tbl, rng, acw, full):
+    """the lookups after a mutating step: every board name in three letter cases, absent names, prefixes, classes, all walks"""
+    names = [nm for nm, _ in ref_tbl if nm]
+    obs = [("dump",)]
+    qs = []
+    for nm in names:
+        qs += [nm, nm.upper(), nm.lower()]
+        if len(nm) >= 11:
+            qs += [nm[:10], nm[:11]]
+    qs += ["Zzz", "aa", "s"] if full else ["aa"]
+    seen = set()
+    for q in qs:
+        if q not in seen and not q[-1] in "Z@\xff":        # a last byte 'Z' is the known finding of descending auto-completion
+            seen.add(q); obs.append(("name", q))
+    for cl in sorted({t5[:4].split("\0")[0] for nm, t5 in ref_tbl if nm} | {"AAA"}):
+        for q in (names[:1] + names[-1:] + ["m"] if full else names[-1:]):
+            obs.append(("class", cl, q))
+    n = len(ref_tbl)
+    for k in ([1, 2, n + 1] if full else [1]):
+        for asc in (1, 0):
+            for by in (0, 1):
+                obs.append(("walk", k, asc, by))
+            if acw:
+                for kw in sorted({nm[:1].lower() for nm in names} | {nm[:11] for nm in names if len(nm) >= 11}):
+                    obs.append(("acwalk", k, asc, kw))
+    return obs
+
+
+def h_scenarios(rng, thorough):
+    """(label, steps): first-time / error paths of loading, then creations, then a reload of the file the creations made"""
+    ent = lambda i, c=0: (H_NAMES[i], H_CLASSES[c] + " ")
+    starts = [("no-board-file", [("reload",)]),
+              ("no-board-file-reloaded-twice", [("reload",), ("reload",)]),
+              ("no-reload-at-all", []),
+              ("empty-board-file", [("install", [], 0)]),
+              ("board-file-shorter-than-a-record", [("install", [], 100)]),
+              ("board-file-with-incomplete-last-record", [("install", [ent(7, 1), ent(1, 0)], 255)]),
+              ("no-board-file-then-incomplete-one", [("reload",), ("install", [], 1)]),
+              ("board-file-with-vacated-slot", [("install", [ent(7, 0), ("", "\0\0\0\0\0"), ent(6, 3)], 0)])]
+    out = []
+    nvar = 6 if thorough else 2
+    for label, pre in starts:
+        for v in range(nvar):
+            used = {nm for st in pre if st[0] == "install" for nm, _ in st[1]}
+            pool = [i for i in range(len(H_NAMES)) if H_NAMES[i] not in used]
+            rng.shuffle(pool)
+            if v == 0:
+                pool = [0] + [i for i in pool if i != 0]         # the first variant creates "sysop13" first
+            ncre = 1 if v == 0 else rng.randrange(2, 5)
+            steps = list(pre)
+            for j in range(ncre):
+                i = pool[j]
+                cl = H_CLASSES[rng.randrange(len(H_CLASSES))]
+                if (v + j) % 2 == 0 or len(H_NAMES[i]) < 2 or not H_NAMES[i][0].isalpha():
+                    steps.append(("create", (H_NAMES[i], cl + " ")))
+                else:
+                    steps.append(("newboard", H_NAMES[i], cl))
+            if v == 1:
+                steps.append(("newboard", H_NAMES[pool[0]].upper(), "AAAA"))      # the name exists in another letter case: refused
+            steps.append(("reload",))
+            out.append(("%s/%d" % (label, v), steps))
+    return out
+
+
+def h_build(label, steps, rng, acw, full):
+    """-> (case line, expected result line, [(step, expected record)]): an observation after every operation"""
+    ref = HRef()
+    seq = []
+    for st in steps:
+        seq.append((st, ref.step(st)))
+        for ob in h_observe(ref.tbl, rng, acw, full):
+            seq.append((ob, ref.step(ob)))
+    line = "8|" + "|".join(h_wire(st) for st, _ in seq)
+    exp = "0 " + " ".join("%d %s" % (len(r), " ".join(str(x) for x in r)) for _, r in seq)
+    return line, exp, seq
+
+
+def h_parse(o):
+    """result line -> list of records (lists of ints), or None"""
+    f = o.split()
+    if not f or f[0] != "0":
+        return None
+    v = [int(x) for x in f[1:]]
+    recs, i = [], 0
+    while i < len(v):
+        recs.append(v[i + 1:i + 1 + v[i]]); i += 1 + v[i]
+    return recs
+
+
+def histories(c, impl, model, rng, thorough):
+    scen = h_scenarios(rng, thorough)
+    lines, exps, seqs, labels, mlines = [], [], [], [], []
+    for label, steps in scen:
+        for acw in (False, True):            # the auto-complete listing is not modelled: a second, implementation-only line with its walks
+            line, exp, seq = h_build(label, steps, rng, acw, not acw)
+            lines.append(line); exps.append(exp); seqs.append(seq); labels.append(label); mlines.append(None if acw else line)
+    c.cov["exhaustive_parts"].append("histories in fresh driver state: %d scenarios = 8 first-time / error paths of loading (no .BRD, reloaded twice, no reload, empty .BRD, "
+                                     ".BRD shorter than a record, incomplete last record, none then incomplete, vacated slot) x creations (AppendRecord + AddbrdTouchCache and "
+                                     "bbs.CreateBoard, names of 2/11/12 characters, a refused duplicate) x a final reload; after every operation: busy flags, BNumber, file size, "
+                                     "table dump, both sorted indexes, GetBid / FindBoardIdxByName / auto-complete for every name in three letter cases + absent names + prefixes, "
+                                     "FindBoardIdxByClass, all listing walks" % len(scen))
+    io = vf.run_impl(impl, "C11", lines, deadline_ms=90000)
+    c.count(sum(len(sq) for sq in seqs), "history-steps")
+    if model:
+        idx = [i for i, m in enumerate(mlines) if m is not None]
+        mo = vf.run_model(model, [mlines[i] for i in idx])
+        vf.correspond(c, "history of reloads / creations / lookups (op 8) vs model", [lines[i] for i in idx], [io[i] for i in idx], mo)
+    for line, exp, seq, label, o in zip(lines, exps, seqs, labels, io):
+        c.cov["distribution"]["history"] = c.cov["distribution"].get("history", 0) + 1
+        hist = "; ".join(h_describe(st) for st, _ in seq if st[0] in H_WHAT)
+        if o.split()[:1] in (["1"], ["2"]):
+            c.violation("history-" + ("crash" if o.split()[0] == "1" else "hang"), "in fresh state, the history [%s] %s" % (hist, "panics" if o.split()[0] == "1" else "does not return"),
+                        {"cases": [line], "expected": exp, "got": o})
+            continue
+        recs = h_parse(o)
+        if recs is None or len(recs) != len(seq):
+            c.violation("history-output", "in fresh state, the history [%s]: unreadable result" % hist, {"cases": [line], "expected": exp, "got": o})
+            continue
+        c.nontrivial(("history", line))
+        c.sample({"op": "history", "scenario": label, "operations": hist, "impl": o[:300]})
+        done = []
+        flagged = False
+        for (st, want), got in zip(seq, recs):
+            if st[0] in H_WHAT:
+                done.append(h_describe(st))
+            if got == [-7]:
+                continue                            # not run: a busy flag was left set earlier (already reported)
+            if got == want:
+                continue
+            after = "in fresh state, after [%s]" % "; ".join(done)
+            rep = {"cases": [line], "expected": exp, "got": o}
+            if len(got) >= 5 and (got[1] != 0 or got[2] != 0):
+                if not flagged:
+                    flagged = True
+                    c.violation("busy-flag-left-set-after-" + (st[0] if st[0] in H_WHAT else "lookup"),
+                                "%s: BBusyState = %d, boards with BusyStateB set = %d after %s returned (every later lookup sleeps on it, SortBCache and ResetBoard refuse)" % (
+                                    after, got[1], got[2], h_describe(st)), rep)
+                if got[:1] + got[3:] == want[:1] + want[3:]:
+                    continue
+            if len(got) >= 5 and got[0] != want[0] and st[0] in ("walk", "acwalk"):
+                c.violation("history-listing-%s-%s" % (st[0], "error" if got[0] == 6 else "does-not-end"), "%s: %s listing (page size %d, %s%s) %s; every visible board once in order is [pages positions...] = %s" % (
+                    after, "auto-complete" if st[0] == "acwalk" else ("by-class" if st[3] else "by-name"), st[1], "asc" if st[2] else "desc", ", prefix %r" % st[3] if st[0] == "acwalk" else "",
+                    "returns an error" if got[0] == 6 else "is not over after 2n+3 pages (the next-cursor does not advance)", want[5:]), rep)
+            elif len(got) >= 5 and got[0] != want[0]:
+                c.violation("history-%s-refused" % st[0] if want[0] == 0 else "history-%s-not-refused" % st[0],
+                            "%s: %s returns error class %d, expected %d" % (after, h_describe(st), got[0], want[0]), rep)
+            elif len(got) >= 5 and got[3:5] != want[3:5]:
+                c.violation("history-board-count", "%s: BNumber = %d with %d complete records in .BRD, expected %d and %d" % (after, got[3], got[4], want[3], want[4]), rep)
+            elif st[0] == "dump":
+                n = want[3]
+                c.violation("history-table-differs-from-board-file" if got[5 + 2 * n:] != want[5 + 2 * n:] else "history-bsorted-not-a-sorted-permutation",
+                            "%s: the cache holds [BSorted by name, by class, 13 name + 5 title bytes per board] = %s, the board file and its sorted orders are %s" % (after, got[5:], want[5:]), rep)
+            elif st[0] in ("name", "class"):
+                what = ["GetBid", "FindBoardIdxByName asc", "FindBoardIdxByName desc", "FindBoardAutoCompleteStartIdx asc", "FindBoardAutoCompleteStartIdx desc"] if st[0] == "name" \
+                    else ["FindBoardIdxByClass asc", "FindBoardIdxByClass desc"]
+                bad = [(w, g, x) for w, g, x in zip(what, got[5:], want[5:]) if g != x and g != -7]
+                if bad:
+                    c.violation("history-lookup-" + bad[0][0].split()[0], "%s, table %r: %s%r = %d, a scan of the table says %d" % (
+                        after, [nm for nm, _ in seq_tbl(seq, st)], bad[0][0], tuple(st[1:]), bad[0][1], bad[0][2]), rep)
+            else:
+                if -7 in got:
+                    continue
+                c.violation("history-listing-" + st[0], "%s: %s listing (page size %d, %s%s): [pages positions...] = %s, every visible board once in order is %s" % (
+                    after, "auto-complete" if st[0] == "acwalk" else ("by-class" if st[3] else "by-name"), st[1], "asc" if st[2] else "desc",
+                    ", prefix %r" % st[3] if st[0] == "acwalk" else "", got[5:], want[5:]), rep)
+
+
+def seq_tbl(seq, upto):
+    """the reference table at the step `upto` of a built scenario (replayed from its operations)"""
+    ref = HRef()
+    for st, _ in seq:
+        if st is upto:
+            break
+        if st[0] in H_WHAT:
+            ref.step(st)
+    return ref.tbl
 
 
 def main():
@@ -89,6 +415,36 @@ def main():
             if s not in seen:
                 seen.add(s); nm_l.append(s)
         tables.append((nm_l, [rng.choice(CLASSES) for _ in nm_l]))
+    # field-width tables: every ordered selection of <= 3 names of WIDE, every subset of 4 and 5 in sampled orders, the whole pool
+    first_wide = len(tables)
+    for n in range(1, len(WIDE) + 1):
+        if n <= 3:
+            sels = list(itertools.permutations(WIDE, n))
+        else:
+            sels = []
+            for comb in itertools.combinations(WIDE, n):
+                perms = list(itertools.permutations(comb))
+                sels += rng.sample(perms, (2 if n < len(WIDE) else 6) * (3 if thorough else 1))
+        for sel in sels:
+            if not any(len(nm) >= 11 for nm in sel):
+                continue                                    # short names only: covered by the pool above
+            tables.append((list(sel), ["\0\0\0\0\0" if nm == "" else WIDE_CLASSES[(pos + len(nm)) % 3] for pos, nm in enumerate(sel)]))
+    # larger tables with many names of 11 and 12 characters sharing their first 10 / 11 characters, twin-free
+    for _ in range(12 if thorough else 4):
+        n = rng.randrange(6, 40)
+        seen, nm_l = set(), []
+        while len(nm_l) < n:
+            if rng.random() < 0.6:
+                s_ = N11[:10] + rng.choice("kKxX0") + rng.choice(["", "", "l", "M", "0", "z", "_"])
+            else:
+                s_ = "".join(rng.choice("abzZ09") for _ in range(rng.randrange(1, 4)))
+            if s_.lower() not in seen:
+                seen.add(s_.lower()); nm_l.append(s_)
+        tables.append((nm_l, [rng.choice(WIDE_CLASSES) for _ in nm_l]))
+    n_wide = len(tables) - first_wide
+    c.cov["exhaustive_parts"].append("field-width tables over the names %r (lengths 1, 2, 11, 12 = the full BoardID_t, shared 11-character prefixes): every ordered selection of <= 3, "
+                                     "every subset of 4..6 in sampled orders, the whole pool, + twin-free random tables of 6..39 boards with 11/12-character names: %d tables; "
+                                     "all lookups, by-name / by-class / auto-complete listing walks (both directions, page sizes 1..n+1)" % (WIDE, n_wide))
     c.cov["exhaustive_parts"].append("every ordered selection of <= %d boards from a pool of %d names (case twins, shared prefixes, a vacated slot), every subset of %d in sampled orders: %d tables" % (NALL, len(POOL), NMAX, len(tables)))
 
     def tb(t):
@@ -144,10 +500,44 @@ def main():
             for asc in (1, 0):
                 add("cwalk", t, (sc_t, sc_n), "7|%s|%d %d" % (T, k, asc), "7|%s|%s|%d %d" % (titles_wire(sc_t), names_wire(sc_n), k, asc), (k, asc))
 
-    for t, (by_name, by_class) in zip(tables, sorted_of):
+    def add_wide_queries(t, by_name, by_class):
+        """the queries of a field-width table: every pool name and probe of 10..13 bytes, classes of the full width, prefixes of 11 and
+        12 bytes, and the three listing walks (auto-complete in both directions, with the start cursor of every page)"""
+        names, titles = t
+        n = len(names)
+        small = n <= len(WIDE)
+        sn = [names[i] for i in by_name]
+        sc_n = [names[i] for i in by_class]
+        sc_t = [titles[i] for i in by_class]
+        T = tb(t)
+        for q in ([x for x in WIDE if x] + WIDE_PROBES if small else rng.sample(names, 6) + WIDE_PROBES[:3]):
+            add("getbid", t, by_name, "1|%s|%s" % (T, toks(q)), "1|%s|%s|%s" % (names_wire(sn), " ".join(str(i + 1) for i in by_name), toks(q)), q)
+            for asc in (1, 0):
+                add("byname", t, sn, "2|%s|%s|%d" % (T, toks(q), asc), "2|%s|%s|%d" % (names_wire(sn), toks(q), asc), (q, asc))
+        for cl in ["AAAA", "BBBB", "\xa4\xdf\xb1\x6f", "AAA"]:
+            for q in ([N11, N11 + "l", N11 + "k", "a"] if small else rng.sample(names, 2)):
+                for asc in (1, 0):
+                    add("byclass", t, (sc_t, sc_n), "3|%s|%s|%s|%d" % (T, toks(cl), toks(q), asc),
+                        "3|%s|%s|%s|%s|%d" % (titles_wire(sc_t), names_wire(sc_n), toks(cl), toks(q), asc), (cl, q, asc))
+        for kw in WIDE_PREFIXES:
+            for asc in (1, 0):
+                add("autocomplete", t, sn, "4|%s|%s|%d" % (T, toks(kw), asc), "4|%s|%s|%d" % (names_wire(sn), toks(kw), asc), (kw, asc))
+        for k in (range(1, n + 2) if small else [1, 2, 3, n]):
+            for asc in (1, 0):
+                add("walk", t, sn, "5|%s|%d %d" % (T, k, asc), "5|%s|%d %d" % (names_wire(sn), k, asc), (k, asc))
+        for kw in ["a", N11[:10], N11, N11 + "l", "Z", "z"]:
+            for k in ((1, 2, 3) if small else (1, 4)):
+                for asc in (1, 0):
+                    add("acwalk", t, sn, "6|%s|%s|%d %d" % (T, toks(kw), k, asc), None, (kw, k, asc))
+        add_class_walks(t, by_class)
+
+    for ti, (t, (by_name, by_class)) in enumerate(zip(tables, sorted_of)):
         names, titles = t
         n = len(names)
         if len(by_name) != n:
+            continue
+        if ti >= first_wide:
+            add_wide_queries(t, by_name, by_class)
             continue
         small = n <= NMAX
         sn = [names[i] for i in by_name]                       # names in by-name order
@@ -233,7 +623,11 @@ def main():
             return "listing-case-twins"                        # two boards of one class with names equal up to case
         if any(x[:4].split("\0")[0].endswith(" ") for x, nm in zip(st, sn) if nm):
             return "listing-by-class-padded-class" + d         # a class shorter than 4 columns, padded with blanks
-        return "listing-by-class" + d
+        return "listing-by-class" + d + fw(sn)
+
+    def fw(nms):
+        """signature suffix: the table has a board whose name fills the whole BoardID_t"""
+        return "-full-width-name" if any(len(x) >= 12 for x in nms) else ""
 
     sampled = set()
     for l, o, (kind, t, so, info) in zip(impl_lines, io, meta):
@@ -252,8 +646,9 @@ def main():
                     "panics" if f[0] == "1" else "is not over after 2n+3 pages (the next-cursor does not advance)", want), {"cases": [l], "expected": want, "got": o})
                 continue
             else:
-                key = "%s-%s" % (kind, "crash" if f[0] == "1" else "hang")
-            c.violation(key, "%s(%r) on table %r: %s" % (kind, info, names, "panics" if f[0] == "1" else "does not return"), {"cases": [l], "got": o})
+                key = "%s-%s%s" % (kind, "crash" if f[0] == "1" else "hang", fw(names) if kind in ("walk", "acwalk") else "")
+            c.violation(key, "%s(%r) on table %r: %s" % (kind, info, names, "panics" if f[0] == "1" else
+                        ("is not over after 2n+3 pages (the next-cursor does not advance)" if kind in ("walk", "acwalk") else "does not return")), {"cases": [l], "got": o})
             continue
         c.nontrivial((kind, tuple(names), info))
         if kind not in sampled:
@@ -330,7 +725,9 @@ def main():
             want = "0 %d%s" % (max(1, -(-len(vis) // k)), "".join(" %d" % v for v in vis))
             if o.strip() != want:
                 twins = len({low(x) for x in sn}) < len(sn)
-                key = "listing-case-twins" if twins else kind
+                key = "listing-case-twins" if twins else kind + fw(sn)
+                if kind == "acwalk" and not asc and kw[-1] == "Z" and not twins:
+                    key = "autocomplete-desc-upper-Z"      # the start index of the first page is the known finding
                 c.violation(key, "%s listing (page size %d, %s%s) over sorted %r: [status pages positions...] = %s, every visible board once in order is %s" % (
                     "by-name" if kind == "walk" else "auto-complete", k, "asc" if asc else "desc", "" if kind == "walk" else ", prefix %r" % kw, sn, o, want),
                     {"cases": [l], "expected": want, "got": o})
@@ -343,10 +740,21 @@ def main():
                 c.violation(cwalk_key(so, info), "by-class listing (page size %d, %s) over the by-class order %r: [status pages positions...] = %s, every visible board once in order is %s" % (
                     k, "asc" if asc else "desc", [(x[:4], nm) for x, nm in zip(st, sn)], o, want), {"cases": [l], "expected": want, "got": o})
 
+    histories(c, impl, model, rng, thorough)
+
     c.finish(rule="tables: every ordered selection of <= %d names from the pool %r + subsets of %d in PRNG(seed) orders + random tables of 6..59 boards; "
                   "queries: every pool name, probes below/above/absent/other case; classes incl. one with a non-blank fifth title byte; prefixes incl. empty, 12, 13 and 16 bytes, and last bytes 'Z', '@', 0xFF (+ two tables on which the latter two fail); "
-                  "both directions; page sizes 1..n+1; by-class listing walks on every table and on each with 3 PRNG(seed) assignments of the classes %r; non-trivial = distinct (table, operation, query) that returned" % (NALL, POOL, NMAX, WCLASSES),
-             assumptions=["the table is quiescent during lookups (BBusyState sleep-and-proceed is not a lock and is not modelled)",
+                  "both directions; page sizes 1..n+1; by-class listing walks on every table and on each with 3 PRNG(seed) assignments of the classes %r; "
+                  "field-width tables: every ordered selection of <= 3 of %r + subsets of 4..6 in PRNG(seed) orders + twin-free random tables with 11/12-character names, probes of 10..13 bytes, "
+                  "prefixes of 11 and 12 bytes, by-name / by-class / auto-complete listing walks in both directions; "
+                  "histories (op 8, one scenario per case line, fresh shared memory and no .BRD): 8 first-time / error paths of loading x PRNG(seed) creations "
+                  "(AppendRecord + AddbrdTouchCache, bbs.CreateBoard) x final reload, every number the driver prints after every operation predicted by the reference; "
+                  "non-trivial = distinct (table, operation, query) that returned" % (NALL, POOL, NMAX, WCLASSES, WIDE),
+             assumptions=["the table is quiescent during lookups (BBusyState sleep-and-proceed is not a lock and is not modelled); that no busy flag is left set after "
+                          "an operation returns is checked after every operation of every history",
+                          "histories keep the cache coherent with the board file: a file put in place by the harness is followed by ReloadBCache; deleting .BRD under a loaded "
+                          "cache (the old table stays) and refused creations are not exercised; history tables are twin-free with at most one vacated slot, so that "
+                          "every output is determined",
                           "sort.Sort is library code: its output is read back from shared memory and checked to be a sorted permutation on every table, not re-proved",
                           "listings are walked as SYSOP (every non-vacated, non-group board visible); other visibility predicates are not exercised",
                           "the empty board name (a vacated slot) is not used as a query",
